@@ -40,25 +40,33 @@ theorem keeps_cacheDescribeConfig (w : World) (s : BState) (o : Obj) :
     Keeps w s (cacheDescribeConfig w s o).st := by
   unfold cacheDescribeConfig; split <;> exact (Keeps.of_rfl w rfl)
 
-theorem keeps_ensureCached (w : World) (s : BState) (o : Obj) (c : Bool) :
-    Keeps w s (ensureCached w s o c).st := by
-  unfold ensureCached
-  apply keeps_andThen w
+theorem keeps_cacheDescribe (w : World) (s : BState) (o : Obj) (c : Bool) :
+    Keeps w s (cacheDescribe w s o c).st := by
+  unfold cacheDescribe
+  split
+  · exact Keeps.refl w s
   · split
     · exact Keeps.refl w s
     · split
-      · exact Keeps.refl w s
+      · exact (Keeps.of_rfl w rfl)
       · split
         · exact (Keeps.of_rfl w rfl)
-        · split
-          · exact (Keeps.of_rfl w rfl)
-          · exact Keeps.refl w s
-  · intro s'
-    split
-    · apply keeps_andThen w
-      · exact keeps_cacheDescribeConfig w s' o
-      · intro s''; exact keeps_cacheReadConfig w s'' o
-    · exact Keeps.refl w s'
+        · exact Keeps.refl w s
+
+theorem keeps_cacheConfig (w : World) (s : BState) (o : Obj) : Keeps w s (cacheConfig w s o).st := by
+  unfold cacheConfig
+  split
+  · apply keeps_andThen
+    · exact keeps_cacheDescribeConfig w s o
+    · intro s''; exact keeps_cacheReadConfig w s'' o
+  · exact Keeps.refl w s
+
+theorem keeps_ensureCached (w : World) (s : BState) (o : Obj) (c : Bool) :
+    Keeps w s (ensureCached w s o c).st := by
+  unfold ensureCached
+  apply keeps_andThen
+  · exact keeps_cacheDescribe w s o c
+  · intro s'; exact keeps_cacheConfig w s' o
 
 theorem keeps_ensureAll (w : World) (s : BState) (objs : List Obj) (c : Bool) :
     Keeps w s (ensureAll w s objs c).st := by
@@ -242,7 +250,8 @@ theorem keeps_collectInner (w : World) (s : BState) (objs : List Obj) (nm : Opti
     · exact (Keeps.of_rfl w rfl)
     · split
       · refine keeps_andThen w _ _ _ ?_ ?_
-        · exact Keeps.trans w _ _ _ (Keeps.of_rfl w rfl) (keeps_ensureCached w _ _ true)
+        · refine Keeps.trans w _ _ _ ?_ (keeps_ensureCached w _ _ true)
+          exact (Keeps.of_rfl w rfl)
         · intro s'; exact Keeps.refl w s'
       · exact (Keeps.of_rfl w rfl)
     · refine keeps_andThen w _ _ _ (Keeps.of_rfl w rfl) ?_
